@@ -432,6 +432,25 @@ let dispatch (cmd : string) (args : sx list) : sx =
        | Arr a -> out_of_res (Ok (Arr (sort_by val_cmp a)))
        | _ -> unmodelled)
   | "run", _ -> cmd_run args
+  | "climb", [L ops] ->
+      (* operator names -> tree built by the precedence-climbing model over atoms 0..n *)
+      let op_of = function
+        | "|" -> OPipe | "," -> OComma | "as" -> OAs O | "=" -> OAssign | "|=" -> OUpdate | "//=" -> OUpdAlt | "//" -> OAlt
+        | "or" -> OOr | "and" -> OAnd
+        | "+=" -> OUpdMath Add | "-=" -> OUpdMath Sub | "*=" -> OUpdMath Mul | "/=" -> OUpdMath Div | "%=" -> OUpdMath Rem
+        | "+" -> OMath Add | "-" -> OMath Sub | "*" -> OMath Mul | "/" -> OMath Div | "%" -> OMath Rem
+        | "==" -> OCmp Eq_ | "!=" -> OCmp Ne_ | "<" -> OCmp Lt_ | "<=" -> OCmp Le_ | ">" -> OCmp Gt_ | ">=" -> OCmp Ge_
+        | s -> failwith ("op " ^ s) in
+      let name_of = function
+        | OPipe -> "|" | OComma -> "," | OAs _ -> "as" | OAssign -> "=" | OUpdate -> "|=" | OUpdAlt -> "//=" | OAlt -> "//" | OOr -> "or" | OAnd -> "and"
+        | OUpdMath m -> (match m with Add -> "+=" | Sub -> "-=" | Mul -> "*=" | Div -> "/=" | Rem -> "%=")
+        | OMath m -> (match m with Add -> "+" | Sub -> "-" | Mul -> "*" | Div -> "/" | Rem -> "%")
+        | OCmp c -> (match c with Eq_ -> "==" | Ne_ -> "!=" | Lt_ -> "<" | Le_ -> "<=" | Gt_ -> ">" | Ge_ -> ">=") in
+      let chain = List.mapi (fun i o -> (match o with Atom a | Str a -> (op_of a, Jaqmodel.Atom (nat_of_int (i + 1))) | _ -> failwith "op")) ops in
+      let rec sx_of_expr = function
+        | Jaqmodel.Atom n -> Atom (string_of_int (int_of_nat n))
+        | Bin (l, o, r) -> L [sx_of_expr l; Str (name_of o); sx_of_expr r] in
+      sx_of_expr (parse_chain (Jaqmodel.Atom O) chain)
   | "cli2", [tree; Str ftext; L argv; L vars; Str stdin; Atom fuel] ->
       (* the model parses the command line itself (Cli/Args.v) *)
       let coq_ascii (c : char) : ascii =
